@@ -366,7 +366,17 @@ def through_save_load(b):
         os.unlink(fn)
     b2 = Built(); b2.ocp = ocp2; b2.stage = ocp2; b2.decl = decl
     b2.T_free = b.T_free; b2.t0_free = b.t0_free
-    b2.x = list(ocp2.states); b2.u = list(ocp2.controls); b2.z = list(ocp2.algebraics)
+    def entries(syms, shapes):
+        # matrix-valued symbols: the scalar model quantities are their entries, column-major
+        if not shapes: return list(syms)
+        out = []
+        for S, (r, c) in zip(syms, shapes):
+            out += [S if r * c == 1 else S[rr, cc] for cc in range(c) for rr in range(r)]
+        return out
+    b2.x = entries(list(ocp2.states), decl.get('xblocks') or []); b2.u = list(ocp2.controls)
+    b2.z = entries(list(ocp2.algebraics), decl.get('zblocks') or [])
+    b2.xsyms = list(ocp2.states) if decl.get('xblocks') else []; b2.zsyms = list(ocp2.algebraics) if decl.get('zblocks') else []
+    b2.xq = list(ocp2.qstates) if decl.get('qstates') else []
     kindkey = {'g': '', 'c': 'control', 'cp': 'control+'}
     it = {k: iter(list(ocp2.parameters[k])) for k in ('', 'control', 'control+')}
     b2.p = [next(it[kindkey[p['kind']]]) for p in decl['params']]
